@@ -9,7 +9,9 @@ the file.  One `Op` is one atomic step of either side:
   event     the loop receives a notification for the config file     → `reconcile()`
   other     the loop receives a notification it ignores (another file)
   wclose    the watcher fails (error, closed channel, directory removed) → `closeWatcher()`
-  tick      the reconcile ticker fires: re-attach the watcher when it is gone, then `reconcile()`
+  tick ok   the reconcile ticker fires: when the watcher is gone try to re-attach it (`ok` = whether
+            opts.newWatcher succeeds — inotify limits, EMFILE, a missing directory make it fail), then ALWAYS
+            `reconcile()`: polling does not depend on the watcher
   fire      the debounce timer fires: (repaired code) fingerprint again and either debounce the newer
             content or `runCallback(observed)`; (defective, pre-fix code) `runCallback(observed)` directly
   wait d    d milliseconds pass
@@ -44,7 +46,7 @@ structure St (α : Type) where
   calls     : List (Nat × α)      -- callback invocations (time, content read), newest first
 
 inductive Op (α : Type) where
-  | write (c : α) | event | other | wclose | tick | fire | wait (d : Nat)
+  | write (c : α) | event | other | wclose | tick (attachOk : Bool) | fire | wait (d : Nat)
 
 variable {α : Type} [DecidableEq α]
 
@@ -81,8 +83,8 @@ def step? (v : Variant) (cfg : Cfg) (s : St α) : Op α → Option (St α)
   | .event   => if s.watcher then some (reconcile cfg s) else none
   | .other   => if s.watcher then some s else none
   | .wclose  => some { s with watcher := false }
-  | .tick    => if s.now = s.nextTick
-                then some (reconcile cfg { s with nextTick := s.nextTick + cfg.R, watcher := true }) else none
+  | .tick ok => if s.now = s.nextTick
+                then some (reconcile cfg { s with nextTick := s.nextTick + cfg.R, watcher := s.watcher || ok }) else none
   | .fire    => if s.deb = some s.now then some (fire v cfg s) else none
   | .wait d  => if s.now + d ≤ s.nextTick ∧ debAllows s (s.now + d) = true
                 then some { s with now := s.now + d } else none
